@@ -236,7 +236,7 @@ impl Check for C07 {
         }
         // (d) halfway and near-halfway cases from f64 bit patterns
         let mut r = g.rng(7);
-        let n = g.count(30_000, 3_000_000);
+        let n = g.count(60_000, 6_000_000);
         for _ in 0..n {
             emit(Case::with("halfway", vec![], &[r.next() as i64]));
         }
